@@ -106,9 +106,6 @@ func check(c Case) ev.Verdict {
 	}
 	want := ref.Apply(doc, ops, ref.Opts{Neg: c.Neg})
 	out, err, pn := apply(c)
-	if pn != nil {
-		return ev.Verdict{Err: pn}
-	}
 	if want.OutOfDomain() {
 		return ev.Excluded("out of domain: "+want.Res.Why, "ood")
 	}
@@ -121,6 +118,13 @@ func check(c Case) ev.Verdict {
 		if !judged {
 			return ev.Excluded(fmt.Sprintf("first inapplicable operation is %s/%s (not among the failures v4 claims to report)", op.Op, cause), "unclaimed-failure")
 		}
+	}
+	if pn != nil {
+		return ev.Verdict{Err: pn}
+	}
+	if !want.OK() {
+		op := ops[want.FailAt]
+		cause := want.Res.Cause
 		v := ev.Verdict{Classes: []string{fmt.Sprintf("fail/%s/%s", op.Op, cause), negc}, NonTrivial: want.FailAt >= 1 || cause != ref.CTestUnequal}
 		if err == nil {
 			v.Err = fmt.Errorf("operation %d (%s) is inapplicable (%s) but Apply succeeded with %s", want.FailAt, op.Op, cause, out)
